@@ -6,6 +6,7 @@ use serde_json::{json, Value};
 
 pub mod c02;
 pub mod conf;
+pub mod fam;
 pub mod gens;
 pub mod hist;
 pub mod mem;
